@@ -56,7 +56,7 @@ Init == /\ script \in Scripts
         /\ c2s = <<>> /\ s2c = <<>>
         /\ srv = [pc |-> "idle", k |-> 0, nl |-> 0, nd |-> 0]
         /\ cli = [pc |-> "start", op |-> 0, cur |-> "-", closed |-> FALSE, ended |-> FALSE, pend |-> <<>>, tok |-> FALSE,
-                  fin |-> FALSE, await |-> FALSE, cancelled |-> FALSE]
+                  fin |-> FALSE, await |-> FALSE, cancelled |-> FALSE, derr |-> FALSE]
         /\ em = <<>> /\ rv = <<>>
 
 FixLogsBeforeError == design \in {"intended", "onlyE"}
@@ -181,15 +181,19 @@ CSessionPipe ==
                   /\ cli' = [cli EXCEPT !.pc = "nosession", !.ended = TRUE]
      ELSE UNCHANGED <<s2c, rv>> /\ cli' = [cli EXCEPT !.pc = "ready"]
   /\ UNCHANGED <<script, design, c2s, srv, em>>
-\* http stream call: the whole /init response is read; messages are delivered as they are met, batches are kept
+\* http stream call: the whole /init response is read; messages are delivered as they are met, batches are kept.  An
+\* error in it fails the call itself only when nothing (no header, no batch) was received before it; otherwise it is kept
+\* and raised once what was received has been handed to the caller
 CSessionHttp ==
   /\ ~Unary /\ Http /\ cli.pc = "rd_init" /\ c2s = <<>> /\ srv.pc # "idle"
   /\ s2c' = <<>>
-  /\ IF Has(s2c, "E")
+  /\ IF Has(s2c, "E") /\ ~Has(s2c, "H") /\ DataOf(Upto(s2c, "E")) = <<>>
      THEN /\ rv' = rv \o Deliver(Upto(s2c, "E")) \o <<Rv("E", 0)>>
           /\ cli' = [cli EXCEPT !.pc = "nosession", !.ended = TRUE]
-     ELSE /\ rv' = rv \o Deliver(s2c) \o (IF script.hdr THEN <<Rv("H", 0)>> ELSE <<>>)     \* the session (and its header) is
-          /\ cli' = [cli EXCEPT !.pc = "ready", !.pend = DataOf(s2c), !.tok = Has(s2c, "K"), !.fin = ~Has(s2c, "K")]  \* handed over after all of /init
+     ELSE LET got == IF Has(s2c, "E") THEN Upto(s2c, "E") ELSE s2c IN
+          /\ rv' = rv \o Deliver(got) \o (IF script.hdr THEN <<Rv("H", 0)>> ELSE <<>>)     \* the session (and its header) is
+          /\ cli' = [cli EXCEPT !.pc = "ready", !.pend = DataOf(got), !.tok = Has(got, "K"),        \* handed over after all of /init
+                                !.fin = ~Has(got, "K"), !.derr = Has(s2c, "E")]
   /\ UNCHANGED <<script, design, c2s, srv, em>>
 
 CSkip ==
@@ -220,6 +224,8 @@ CTickHttpProd ==
   /\ IF cli.pend # <<>>
      THEN /\ See("D", Head(cli.pend)) /\ UNCHANGED <<c2s, s2c>>
           /\ cli' = [GotData(cli) EXCEPT !.pend = Tail(cli.pend)]
+     ELSE IF cli.derr
+     THEN /\ See("E", 0) /\ cli' = [Done(cli) EXCEPT !.ended = TRUE, !.derr = FALSE] /\ UNCHANGED <<c2s, s2c>>
      ELSE IF cli.fin
      THEN /\ See("S", 0) /\ cli' = [Done(cli) EXCEPT !.ended = TRUE] /\ UNCHANGED <<c2s, s2c>>
      ELSE IF s2c = <<>> /\ ~cli.await
